@@ -214,8 +214,36 @@ CHECKS = {
          "agreement (structures of different native libraries). A second 'deep' mode relocates every buffer argument of every native call (also the internal ones) to guard pages. "
          "843 k cases quick, 6.4 M thorough; each batch runs in a child process located by a progress file when it dies.",
          "Trusted: ASan, the guard-page arena and the ctypes proxy in mc/props/_c17_*.py (the library's own 8825 self-tests pass unchanged under the deep proxy). "
-         "No malloc fault injection; a native call that never returns is logged, not judged.", "DESIGN.md 3/C17"),
+         "Allocation failures are explored in the fault part only (single refusal or all-from-k; not two isolated refusals, not inside libgmp/libc/Python); a native call that never returns is logged, not judged.", "DESIGN.md 3/C17"),
 }
+# parts added in the fifth wave (appended to the level texts above)
+EXTRA = {
+ "C17": " A fault part refuses EVERY allocation of the library's own native code (malloc/calloc/posix_memalign of the extensions are "
+        "routed through a controlled seam by ld --wrap in a dedicated ASan build): for each of 140 (quick) / 155 (thorough) workloads "
+        "covering every hash, MAC, cipher mode, KDF, RSA decoder, big-integer and EC entry point, allocation k alone and allocation k "
+        "with all later ones are refused for every k (8 257 fault points, 16 514 executions quick); the process must survive under ASan "
+        "(no NULL dereference, use after free or double free on a clean-up path) and the call must raise or return the undisturbed result.",
+ "C10": " A retry part inserts one call refused for its ARGUMENT (output buffer too long / too short / read-only / bytes, str or None "
+        "as data) before every piece of every short one-direction history of 10 AEAD configurations and demands the observations of the "
+        "history without it (differential).",
+ "C03": " One update() call (and new(data)) carrying 2^29+3 bytes - a length counter above 2^32 bits fed by a single call - for 6 (quick) / "
+        "14 (thorough) hash algorithms against hashlib and against the same bytes in 16 MiB pieces.",
+ "C01": " OCB with more than 2^16 blocks of message and of associated data (block indexes whose ntz is 16 or 17) against the reference, "
+        "with block swaps across index 65536 offered back.",
+ "C04": " MGF1 (RFC 8017 B.2.1) for seven hashes incl. 1- and 2-octet digests at every mask length around 0, 1, 2, 255, 256, 257 and 513 blocks.",
+ "C15": " Set-up: the complete PSK matrix of RFC 9180 5.1 (both empty, PSK without id, id without PSK, PSK shorter than 32 octets) with and "
+        "without a sender key on the sending and the receiving side.",
+ "C19": " The result of every point operation (copy, P*k, k*P, negation, addition, point_at_infinity) on 4 operands incl. the neutral element "
+        "on all 9 curves is a new object: changing it in place never reaches the operand.",
+ "C18": " sample() from populations with equal elements (1 == 1.0 == True): the selection is uniform over positions.",
+ "C12": " derive() after a refused 128th S2V component equals S2V of the 127 accepted ones.",
+}
+for _k, _v in EXTRA.items():
+    _c = CHECKS[_k]
+    CHECKS[_k] = (_c[0], _c[1], _c[2] + _v, _c[3], _c[4])
+_c = CHECKS["C17"]
+CHECKS["C17"] = (_c[0], _c[1] + "; exhaustive single-fault injection at every allocation point of the native code (deviation bound 1, and 'all later allocations' as a second mode)",
+                 _c[2], _c[3], _c[4])
 NOT_YET = "(all twenty properties are claimed) check not built yet (work in progress in this session; see DESIGN.md section 3 for the planned bounded-exhaustive check)"
 man = {
  "version": 1,
